@@ -59,8 +59,35 @@ let rec sx (r : M.resp) : string =
       "(scan " ^ (if paired then "1" else "0") ^ String.concat "" (List.map (fun x -> " " ^ sx x) c) ^ ")"
   | M.RAny -> "(any)"
 
+let rec nat_of_int n = if n <= 0 then M.O else M.S (nat_of_int (n - 1))
+let rec int_of_nat = function M.O -> 0 | M.S n -> 1 + int_of_nat n
+
+let rec px (v : M.pval) : string =
+  let many tag l = "(" ^ tag ^ String.concat "" (List.map (fun x -> " " ^ px x) l) ^ ")" in
+  match v with
+  | M.PSimple b -> "(simple " ^ hex_of_bytes b ^ ")"
+  | M.PErr b -> "(err " ^ hex_of_bytes b ^ ")"
+  | M.PInt z -> "(int " ^ z_to_string z ^ ")"
+  | M.PBulk b -> "(bulk " ^ hex_of_bytes b ^ ")"
+  | M.PNil -> "(nil)"
+  | M.PNull -> "(null)"
+  | M.PBool b -> if b then "(bool 1)" else "(bool 0)"
+  | M.PArr l -> many "arr" l
+  | M.PSet l -> "(set " ^ String.concat " " (List.sort compare (List.map px l)) ^ ")"
+  | M.PMap l -> "(map" ^ String.concat "" (List.map (fun (k, v) -> " " ^ px k ^ " " ^ px v) l) ^ ")"
+
+(* hashes are 64-bit: read them as decimal strings into N without OCaml ints *)
+let n_of_decimal (s : string) : M.n =
+  let ten = n_of_int 10 in
+  let acc = ref M.N0 in
+  String.iter (fun ch -> acc := M.N.add (M.N.mul !acc ten) (n_of_int (Char.code ch - 48))) s;
+  !acc
+let rec pos_to_dec p = pos_to_string p
+let n_to_string = function M.N0 -> "0" | M.Npos p -> pos_to_string p
+
 let () =
   let st = ref M.state0 in
+  let dict = ref M.dict_empty in
   (try
     while true do
       let line = input_line stdin in
@@ -76,6 +103,32 @@ let () =
            print_string ("R " ^ (if o.M.o_block then "1 " else "0 ") ^ sx w ^ "\n")
        | ["CLOSE"; cid] -> st := M.close_conn !st (n_of_int (int_of_string cid)); print_string "OK\n"
        | ["RESET"] -> st := M.state0; print_string "OK\n"
+       | ["P"; h] ->
+           let c = bytes_of_string (string_of_hex h) in
+           (match M.parse c with
+            | M.Done (v, n) -> print_string ("Done " ^ string_of_int (int_of_nat n) ^ " " ^ px v ^ "\n")
+            | M.Invalid -> print_string "Invalid\n"
+            | M.Unsupported -> print_string "Unsupported\n"
+            | M.Panic _ -> print_string "Panic\n")
+       | ["DRESET"] -> dict := M.dict_empty; print_string "OK\n"
+       | ["DSTORE"; k; h] ->
+           (match M.dict_store !dict (bytes_of_string (string_of_hex k)) (n_of_decimal h) with
+            | M.Ok d -> dict := d; print_string "OK\n"
+            | M.Diverge -> print_string "DIVERGE\n")
+       | ["DREMOVE"; k; h] ->
+           let (d, ex) = M.dict_remove !dict (bytes_of_string (string_of_hex k)) (n_of_decimal h) in
+           dict := d; print_string (if ex then "1\n" else "0\n")
+       | ["DLAYOUT"] ->
+           let d = !dict in
+           let b = Buffer.create 256 in
+           Buffer.add_string b (Printf.sprintf "%d %s %s" (int_of_nat d.M.d_log) (n_to_string d.M.d_count) (n_to_string d.M.d_removals));
+           List.iteri (fun i o -> match o with
+             | Some it -> Buffer.add_string b (Printf.sprintf " %s:%d" (hex_of_bytes it.M.it_key) i)
+             | None -> ()) d.M.d_slots;
+           print_string (Buffer.contents b ^ "\n")
+       | ["DSCAN"; c; n] ->
+           let (c', items) = M.dict_scan !dict (n_of_decimal c) (nat_of_int (int_of_string n)) in
+           print_string (n_to_string c' ^ String.concat "" (List.map (fun it -> " " ^ hex_of_bytes it.M.it_key) items) ^ "\n")
        | ["QUIT"] -> raise End_of_file
        | _ -> print_string "ERR bad line\n");
       flush stdout
